@@ -339,18 +339,19 @@ Wellformed(s) ==
 
 Space ==
   CASE Family = "C01" ->
-         {s \in [rhs : RhsIds, meth : {"MS", "SS"}, intg : {"rk", "expl_euler"}, N : 1..MaxN, M : 1..MaxM,
+         {s \in [rhs : RhsIds \cup {"RA", "RB"}, meth : {"MS", "SS"}, intg : {"rk", "expl_euler"}, N : 1..MaxN, M : 1..3,
                  grid : {"uni", "geo", "geoL", "fun"}, hz : {"num", "fT", "ft0", "fb", "pT"},
-                 seed : {Seed, Seed + 1}, cons : {<<>>}, obj : {<<>>}] : Wellformed(s)}
+                 seed : {Seed, Seed + 1}, cons : {<<>>}, obj : {<<>>}] : Wellformed(s) /\ (s.M = 3 => s.grid \in {"uni", "geo"} /\ s.hz \in {"num", "fb"})}
     [] Family = "C02" ->
          {s \in [rhs : {"R1", "R2", "R3", "R4", "R6"}, meth : {"DC"}, intg : {"radau1", "radau2", "legendre1"}, N : 1..MaxN, M : 1..MaxM,
                  grid : {"uni", "geo", "fun"}, hz : {"num", "fT", "fb"},
                  seed : IF Thorough THEN {Seed, Seed + 1} ELSE {Seed}, cons : {<<>>, <<"kR", "k7">>, <<"kS", "k1">>}, obj : {<<>>, <<"o6", "o1">>}] : Wellformed(s)}
     [] Family = "C04" ->
-         {s \in [rhs : {"R2", "R3"}, meth : {"MS", "SS", "DC"}, intg : {"rk", "radau2"}, N : 1..MaxN, M : 1..MaxM,
+         {s \in [rhs : {"R2", "R3", "RB", "R4"}, meth : {"MS", "SS", "DC"}, intg : {"rk", "radau2"}, N : 1..MaxN, M : 1..MaxM,
                  grid : {"uni", "fun"}, hz : {"num", "fT"},
-                 seed : {Seed}, cons : ConSets \cup {<<"k8", "kR">>, <<"k7", "kS", "k2">>, <<"kV">>, <<"kV", "k6">>}, obj : {<<>>}] :
+                 seed : {Seed}, cons : ConSets \cup {<<"k8", "kR">>, <<"k7", "kS", "k2">>, <<"kV">>, <<"kV", "k6">>, <<"kM", "k1">>, <<"kMp">>}, obj : {<<>>}] :
               /\ Wellformed(s) /\ (s.meth = "DC" <=> s.intg = "radau2")
+              /\ (s.rhs = "RB" <=> s.cons = <<"kM", "k1">>) /\ (s.rhs = "R4" <=> s.cons = <<"kMp">>)
               /\ (s.meth # "DC" => \A i \in 1..Len(s.cons) : s.cons[i] \notin {"kR", "kS"})}
     [] Family = "C05" ->
          {s \in [rhs : {"R1", "R3", "R4", "R7"}, meth : {"MS", "SS"}, intg : {"rk", "expl_euler"}, N : 1..MaxN, M : 1..MaxM,
